@@ -890,6 +890,28 @@ def r04_6(q, R, spec):
                 "`c` sub-line into that node's javadoc (add_comment: same variant, unescaped text, a second comment is an error); "
                 "MappingsDiff::diff builds info by gen_diff_names(ab), javadoc by gen_diff_javadoc(ab) and each child map F by "
                 "zip_map_combination(ab.map(|x| &x.F), ..) with the `ab` of the same level")
+    # ---- the physical line reaches the tokeniser as it is (seed C05-7: `line?.trim_end()` eats the significant trailing tab of a
+    #      `p` row without a name action and the trailing blanks of a comment)
+    from rules import c03 as C3
+    from lib import c03_util as U3
+    tl = q.fn("new", impl_ty="TinyLine")
+    rdb = fn_in(q, "read", within="tiny_v2_diff")
+    if R.anchor(rid, "fn TinyLine::new", tl) and R.anchor(rid, "fn tiny_v2_diff::read", rdb):
+        tp = C3.text_param(tl)
+        rfn = U3.Fn(q, rdb, strict=True)
+        calls = [n for n in H.walk(rfn.root) if n.get("k") == "call" and (n.get("callee") or {}).get("key") == tl["key"]]
+        if R.anchor(rid, "call of TinyLine::new(.., <line>) in tiny_v2_diff::read", len(calls) == 1 and tp is not None, sp=rdb["sp"]):
+            chains = C3.value_leaves(rfn, calls[0]["args"][tp])
+            V = C3.Verbatim(q)
+            bad = []
+            for ch in chains:
+                if ch.root[0] != "param":
+                    bad.append("value does not come from the reader: %s" % ch.show())
+                bad.extend(V.offenders(ch.hops, C3.LINE_SOURCE))
+            lines = [h for ch in chains for h in ch.hops if h[0] == "call" and h[1] == "lines"]
+            R.inst(rid, "read:line-verbatim", bool(chains) and not bad and len(lines) == 1, sp=calls[0].get("sp"),
+                   expect="TinyLine::new(n, &<item of BufRead::lines()>)", got={"value": [c.show() for c in chains], "not verbatim": bad},
+                   detail="trailing tabs (empty cells) and blanks inside comments are significant in a .tinydiff row")
     # ---- add_comment
     fn = fn_in(q, "add_comment", within="tiny_v2_diff")
     if R.anchor(rid, "fn tiny_v2_diff::add_comment", fn):
